@@ -179,6 +179,13 @@ def search(ctx):
             if why:
                 found.append({"clause": why, "input": {"op": repr(op), "failure": kind}, "observed": detail, "size": 1, "case": None,
                               "method_case": repr((op, rep, kind))})
+    nh = 0
+    for op, rep in HEALTHY_OPS:
+        nh += 1
+        why, detail = healthy_reuse(op, rep)
+        if why:
+            found.append({"clause": why, "input": {"op": repr(op), "reply": repr(rep)}, "observed": detail, "size": 1, "case": None,
+                          "healthy_case": repr((op, rep))})
     nc = 0
     for cfg in CONNECT_CFGS:
         for pos in range(0, 12):
@@ -188,7 +195,7 @@ def search(ctx):
                 if why:
                     found.append({"clause": why, "input": {"cfg": repr(cfg), "failing_socket_call": pos, "error": kind}, "observed": detail, "size": 1, "case": None,
                                   "connect_case": repr((cfg, pos, kind))})
-    ctx.search_summary = {"runs": n, "method_failure_runs": m, "connect_failure_runs": nc}
+    ctx.search_summary = {"runs": n, "method_failure_runs": m, "connect_failure_runs": nc, "healthy_reuse_runs": nh}
     found.sort(key=lambda v: v["size"])
     return found[:1]
 
@@ -243,6 +250,38 @@ def method_failure(op, rep, kind):
     return None, None
 
 
+# every PooledClient method on a HEALTHY connection, with each well-formed answer the server can give (the negative ones too:
+# a miss, NOT_STORED, EXISTS, NOT_FOUND - and the subscript forms, where a miss is a KeyError): the connection is reused
+HEALTHY_OPS = METHOD_OPS[:-1] + [
+    ((0, 1, b"k", b"v", 0, False, None), b"NOT_STORED\r\n"), ((0, 2, b"k", b"v", 0, False, None), b"NOT_STORED\r\n"),
+    ((2, b"k", b"v", b"1", 0, False, None), b"EXISTS\r\n"), ((2, b"k", b"v", b"1", 0, False, None), b"NOT_FOUND\r\n"),
+    ((1, [(b"a", b"1"), (b"b", b"2")], 0, False, None), b"STORED\r\nNOT_STORED\r\n"),
+    ((3, b"k", None), b"VALUE k 0 1\r\nv\r\nEND\r\n"), ((4, b"k", None, None), b"VALUE k 0 1 7\r\nv\r\nEND\r\n"),
+    ((7, False, [b"a", b"b"]), b"VALUE b 0 1\r\nv\r\nEND\r\n"), ((9, b"k", False), b"NOT_FOUND\r\n"),
+    ((10, False, [b"a", b"b"], False), b"NOT_FOUND\r\nDELETED\r\n"), ((11, b"k", 1, False), b"NOT_FOUND\r\n"), ((12, b"k", 1, False), b"NOT_FOUND\r\n"),
+    ((13, b"k", 5, False), b"NOT_FOUND\r\n"), ((0, 0, b"k", b"v", 0, True, None), b""), ((9, b"k", True), b""),
+    ((20, b"k"), b"END\r\n"), ((20, b"k"), b"VALUE k 0 1\r\nv\r\nEND\r\n"), ((21, b"k", b"v"), b""), ((22, b"k"), b"")]
+
+
+def healthy_reuse(op, rep):
+    c = dict(tcp=False, default_noreply=False)
+    pre = (0, 0, b"z", b"0", 0, False, None)
+    post = (3, b"z", None)
+    r = cs.run_pooled(c, (2, 0), [pre, op, post], [], [], (), [], {0: b"STORED\r\n", 1: rep, 2: b"VALUE z 0 1\r\n0\r\nEND\r\n"})
+    results, trace, world = r[0], r[1], r[5]
+    if results[1][0] in (("e", "WouldBlock"), ("e", "TypeError"), ("e", "AttributeError")):
+        return "harness: %r could not be run: %r" % (op, results[1][0]), repr(results)
+    if any(u != 0 for _, u, _ in results):
+        return "connections still checked out after a call: used = %r" % ([u for _, u, _ in results],), repr(results)
+    opened = sum(1 for e in trace if e[0] == 1)
+    if opened != 1:
+        return ("%r got a complete, well-formed answer %r on a healthy connection (result %r) and the connection was not reused: %d sockets "
+                "opened for three calls" % (op, rep, results[1][0], opened)), repr(results)
+    if results[2][0] != ("o", ("bytes", b"0")):
+        return "the call after %r returned %r" % (op, results[2][0]), repr(results)
+    return None, None
+
+
 CONNECT_CFGS = [dict(tcp=False, keepalive=True, default_noreply=False), dict(tcp=True, naddr=2, keepalive=True, nodelay=True, default_noreply=False),
                 dict(tcp=True, naddr=1, tls=True, default_noreply=False)]
 
@@ -271,12 +310,16 @@ def replay(ctx, obj):
         why, detail = connect_failure(*eval(v["connect_case"]))
         print(why or "everything opened was closed", detail or "")
         return bool(why)
-    if not v or not v.get("case"):
-        return None
-    if v.get("method_case"):
+    if v and v.get("healthy_case"):
+        why, detail = healthy_reuse(*eval(v["healthy_case"]))
+        print(why or "healthy connection reused", detail or "")
+        return bool(why)
+    if v and v.get("method_case"):
         why, detail = method_failure(*eval(v["method_case"]))
         print(why or "failed connection discarded", detail or "")
         return bool(why)
+    if not v or not v.get("case"):
+        return None
     case = eval(v["case"])
     c, pc, ops, sc, ch, rbo, clock = run_case(case)
     r = cs.run_pooled(c, pc, ops, sc, ch, (), clock, rbo)
